@@ -719,6 +719,62 @@ def mmap_case(case, path, mode, originals, recs, stream):
                 f.write(before)
         break
     del back, got
+    handle_after_path_change(sub0, path, mode, originals, recs, before)
+
+
+def handle_after_path_change(sub0, path, mode, originals, recs, before):
+    """`joblib.load(<open file object>, mmap_mode=…)` after the PATH the object was opened from has changed: a new
+    version published under the same name (write to a temporary + os.replace, the same layout with other payload
+    bytes), or the name gone (renamed away / unlinked). The file object still designates the old file: the load must
+    return the arrays stored in IT (whatever way it gets the bytes), and must not raise."""
+    data = bytearray(before)
+    touched = False
+    for rec in recs:
+        if rec["hasobject"] or rec["end"] <= rec["start"]:
+            continue
+        for i in range(rec["start"], rec["end"]):
+            data[i] ^= 0x5A
+        touched = True
+    if not touched:
+        return
+    for how in ("replaced-by-a-new-version", "renamed-away"):
+        sub = dict(sub0, fileobj_after=how)
+        h = open(path, "rb")
+        tmp = path + ".newver"
+        back = None
+        try:
+            if how == "renamed-away":
+                os.rename(path, path + ".away")
+            else:
+                with open(tmp, "wb") as f:
+                    f.write(bytes(data))
+                os.replace(tmp, path)
+            try:
+                back = joblib.load(h, mmap_mode=mode)
+            except Exception as e:  # noqa: BLE001
+                fail("file-object-load-raises-after-its-path-was-" + how + ":" + type(e).__name__, sub, repr(e)[:200])
+                continue
+            got = list(walk(back))
+            ok = len(got) == len(originals)
+            for l, o in zip(got, originals):
+                if not ok:
+                    break
+                ok = (isinstance(l, np.ndarray) and tuple(l.shape) == tuple(o.shape) and dtype_equal_up_to_byteorder(l.dtype, o.dtype)
+                      and (elem_bytes(l) == elem_bytes(o) if l.dtype == o.dtype else same_values_other_byteorder(l, o)))
+            if not ok:
+                fail("file-object-load-returns-other-contents-after-its-path-was-" + how, sub,
+                     dict(types=[type(x).__name__ for x in got]))
+            ST.count("fileobj-load-after-path-" + how)
+        finally:
+            del back
+            h.close()
+            if how == "renamed-away":
+                if os.path.exists(path + ".away"):
+                    os.replace(path + ".away", path)
+            else:
+                with open(tmp, "wb") as f:
+                    f.write(before)
+                os.replace(tmp, path)
 
 
 # ----------------------------------------------------------------------------- worker path
@@ -960,13 +1016,7 @@ def parallel_jobs(rnd, thorough):
         jobs.append((dict(dtype="<f8", shape=[131073], layout="C", seed=71), backend, "default", "r"))
         jobs.append((dict(dtype=OBJ_STRUCTS[1], shape=[66000], layout="C", seed=72), backend, "default", "r"))
         jobs.append((dict(dtype="<i4", shape=[300, 40], layout="F", seed=73), backend, "0.5K", "r"))
-    # mmap_mode of the automatic memmap, where it matters: arrays above the threshold
-    for backend in ("loky", "multiprocessing"):
-        for mode in ("r", "r+", "c", "w+"):
-            jobs.append((dict(dtype="<f8", shape=[30, 10], layout="C", seed=80), backend, 100, mode))
-            jobs.append((dict(dtype=[["a", "<i4"], ["b", ">f8"]], shape=[40], layout="C", seed=81), backend, 100, mode))
-            jobs.append((dict(dtype=OBJ_STRUCTS[1], shape=[40], layout="C", seed=82), backend, 100, mode))
-            jobs.append((dict(dtype="O", shape=[40], layout="C", seed=83), backend, 100, mode))
+    # (the mmap_mode of the automatic memmap is the business of `mode_cases`)
     return jobs
 
 
@@ -1028,13 +1078,157 @@ def parallel_cases(scratch, rnd, thorough, shard=0, nshards=1):
                     obs = "dump-and-memmap"
                 ST.count("parallel:travelled-as=" + obs)
                 corr("forward", case, f"forward {int(type(a) in (np.ndarray, np.memmap))} {int(backed)} {int(a.dtype.hasobject)} "
-                                      f"{'-' if mx_bytes is None else mx_bytes} {n}", obs)
+                                      f"{'-' if mx_bytes is None else mx_bytes} {n} {'none' if mode is None else 'mode'}", obs)
                 # the automatic memmap is opened with the requested mode ('w+' must not zero the data: values above)
                 if obs == "dump-and-memmap" and got["writeable"] != (mode != "r"):
                     fail("automatic-memmap-mode-not-honoured", case, dict(mode=mode, writeable=got["writeable"]))
             else:
                 if got["where"] != want["where"]:
                     fail("threading-backend-copied-or-remapped-the-array", case, dict(want=want["where"], got=got["where"]))
+
+
+# ----------------------------------------------------------------------------- mmap_mode of the automatic memmap
+#
+# `Parallel(mmap_mode=…)`: "Memmapping mode for numpy arrays passed to workers. None will disable memmapping, other
+# modes defined in the numpy.memmap doc". Every documented value x max_nbytes {None, small} x {loky, multiprocessing};
+# in one call: in-memory arrays above the threshold (numeric, structured), arrays that never travel as memmaps
+# (object fields), and caller-side np.memmap inputs opened 'r+', 'c' and 'r'. Each task reports the values it sees,
+# then tries to WRITE its first element and says whether the write is in the file it maps. Oracle, from the two
+# documents only: same values; never an exception; 'r' not writeable; 'r+'/'w+' write through to the mapped file
+# ('w+' without zeroing it); 'c' writeable and private; mmap_mode=None / max_nbytes=None: no automatic memmap; the
+# caller's in-memory array is never changed by a task; a caller memmap is changed exactly when it was opened 'r+'.
+
+MODES = [None, "r", "r+", "w+", "c"]
+F58_SWITCH = "VERIF_C19_F58"   # set: also run mmap_mode=None with a small max_nbytes (fails on a tree without fix F58)
+
+
+def task_write(x, new_hex):
+    import numpy as _np
+
+    out = dict(seen=task_seen(x), wrote=None, in_file=None)
+    new = bytes.fromhex(new_hex)
+    if new and x.size:
+        first = tuple(0 for _ in x.shape)
+        try:
+            x[first] = _np.frombuffer(new, dtype=x.dtype)[0]
+            out["wrote"] = True
+        except ValueError:   # "assignment destination is read-only"
+            out["wrote"] = False
+        if out["wrote"] and isinstance(x, _np.memmap):
+            x.flush()
+            with open(x.filename, "rb") as f:
+                f.seek(x.offset)
+                out["in_file"] = f.read(len(new)) == new
+    return out
+
+
+def mode_plan(thorough):
+    plan = []
+    for backend in ("loky", "multiprocessing"):
+        for mode in MODES:
+            for mx in (None, 100):
+                if mode is None and mx is not None and not os.environ.get(F58_SWITCH):
+                    continue
+                if mx is None and mode not in (None, "r+") and not thorough:
+                    continue   # nothing is memmapped: one mode is enough in the quick tier
+                plan.append(dict(kind="modes", backend=backend, mmap_mode=mode, max_nbytes=mx))
+    return plan
+
+
+MODE_INPUTS = [
+    ("numeric", dict(dtype="<f8", shape=[30, 10], layout="C", seed=80), None),
+    ("numeric-F", dict(dtype=">i4", shape=[12, 9], layout="F", seed=84), None),
+    ("struct", dict(dtype=[["a", "<i4"], ["b", ">f8"]], shape=[40], layout="C", seed=81), None),
+    ("struct-with-object", dict(dtype=OBJ_STRUCTS[1], shape=[40], layout="C", seed=82), None),
+    ("object", dict(dtype="O", shape=[40], layout="C", seed=83), None),
+    ("caller-memmap-r+", dict(dtype="<i4", shape=[60], layout="C", seed=85), "r+"),
+    ("caller-memmap-c", dict(dtype="<f8", shape=[8, 6], layout="C", seed=86), "c"),
+    ("caller-memmap-r", dict(dtype="<u2", shape=[70], layout="C", seed=87), "r"),
+]
+
+
+def mode_case(case, scratch):
+    from joblib import Parallel, delayed
+
+    backend, mode, mx = case["backend"], case["mmap_mode"], case["max_nbytes"]
+    ST.evaluations += 1
+    ST.count("modes:" + backend)
+    ST.count("modes:mmap_mode=" + repr(mode))
+    ST.count("modes:max_nbytes=" + repr(mx))
+    ST.nontrivial.add(json.dumps(case, sort_keys=True))
+    arrays, news, olds = [], [], []
+    tag = hashlib.sha1(json.dumps(case, sort_keys=True).encode()).hexdigest()[:8]
+    for name, spec, cmode in MODE_INPUTS:
+        a = make_array(spec, os.path.join(scratch, "src"))
+        if cmode is not None:
+            fn = os.path.join(scratch, "mode-%s-%s.bin" % (tag, name))
+            m = np.memmap(fn, dtype=a.dtype, mode="w+", shape=a.shape, offset=16)
+            m[...] = a
+            m.flush()
+            del m
+            a = np.memmap(fn, dtype=a.dtype, mode=cmode, shape=a.shape, offset=16)
+        arrays.append(a)
+        if a.dtype.hasobject:
+            news.append("")
+        else:
+            first = tuple(0 for _ in a.shape)
+            news.append(bytes((b ^ 0x5A) for b in np.asarray(a[first]).tobytes()).hex())
+        olds.append(elem_bytes(a))
+    wants = [task_seen(a) for a in arrays]
+    kwargs = dict(n_jobs=2, backend=backend, temp_folder=os.path.join(scratch, "jl"), mmap_mode=mode, max_nbytes=mx, timeout=90)
+    try:
+        outs = Parallel(**kwargs)(delayed(task_write)(a, nw) for a, nw in zip(arrays, news))
+    except Exception as e:  # noqa: BLE001
+        sig = "parallel-raises:" + type(e).__name__
+        if mode is None and mx is not None:
+            sig = "mmap_mode-None-does-not-disable-memmapping:parallel-raises:" + type(e).__name__
+        fail(sig, case, repr(e)[:300])
+        return
+    for (name, spec, cmode), a, want, got, nw, old in zip(MODE_INPUTS, arrays, wants, outs, news, olds):
+        sub = dict(case, input=name)
+        seen = got["seen"]
+        if seen["sha1"] != want["sha1"] or seen["shape"] != want["shape"]:
+            fail("worker-values-differ", sub, dict(want=want, got=seen))
+            continue
+        if seen["dtype"] != want["dtype"]:
+            fail("worker-dtype-differs", sub, dict(want=want["dtype"], got=seen["dtype"]))
+        n = int(a.nbytes)
+        backed = cmode is not None
+        if seen["where"] == "array":
+            obs = "plain-pickle"
+        elif backed and seen["where"].endswith("/" + os.path.basename(str(a.filename))):
+            obs = "reuse-backing"
+        else:
+            obs = "dump-and-memmap"
+        ST.count("modes:travelled-as=" + obs)
+        corr("forward", sub, f"forward 1 {int(backed)} {int(a.dtype.hasobject)} {'-' if mx is None else mx} {n} "
+                             f"{'none' if mode is None else 'mode'}", obs)
+        if obs == "dump-and-memmap" and (mode is None or mx is None):
+            fail("automatic-memmap-although-" + ("mmap_mode" if mode is None else "max_nbytes") + "-is-None", sub, dict(where=seen["where"]))
+        if not nw:
+            continue
+        # what numpy.memmap documents for the mode the worker's array must have been opened with
+        eff = {"dump-and-memmap": mode, "reuse-backing": cmode, "plain-pickle": "by-value"}[obs]
+        want_w = dict(wrote=eff != "r", in_file={"r+": True, "w+": True, "c": False}.get(eff))
+        got_w = dict(wrote=got["wrote"], in_file=got["in_file"])
+        if obs == "dump-and-memmap" and seen["writeable"] != (mode != "r"):
+            fail("automatic-memmap-mode-not-honoured", sub, dict(mode=mode, writeable=seen["writeable"]))
+        elif got_w != want_w:
+            fail("worker-write-semantics-differ-from-numpy.memmap:" + str(eff), sub, dict(want=want_w, got=got_w, travelled=obs))
+        # visible to the caller: only through a caller memmap opened r+
+        now = elem_bytes(a)
+        if backed and cmode == "r+":
+            first = tuple(0 for _ in a.shape)
+            if np.asarray(a[first]).tobytes().hex() != nw:
+                fail("task-write-not-visible-through-the-callers-r+-memmap", sub, "")
+        elif now != old:
+            fail("task-write-changed-the-callers-array", sub, dict(travelled=obs, caller_memmap_mode=cmode))
+    del arrays
+
+
+def mode_cases(scratch, thorough):
+    for case in mode_plan(thorough):
+        guarded(mode_case, case, case, scratch)
 
 
 def parallel_view_cases(scratch):
@@ -1056,6 +1250,458 @@ def parallel_view_cases(scratch):
             for got in out:
                 if got["sha1"] != want["sha1"] or got["shape"] != want["shape"]:
                     fail(view_signature(a, backing(a)), case, dict(want=want, got=got))
+
+
+# ----------------------------------------------------------------------------- call histories on one Parallel object
+#
+# Clause: "large arrays passed to process workers through automatic memmapping present the same values to the task".
+# A HISTORY is a sequence of steps on named caller-side arrays and calls of ONE Parallel object (managed: inside
+# `with Parallel(...) as p:`; unmanaged: the same object called several times):
+#   ["new", name, spec]              a fresh array from the generator
+#   ["memmap", name, spec]           a caller-side np.memmap (mode r+) holding generated values
+#   ["mutate", name, how]            IN PLACE: "fill" (every element), "one" (the last element), "flip" (xor of every byte)
+#   ["copy", name]                   name rebound to an equal copy (a NEW object with the same values)
+#   ["replace", name, spec]          the old object is dropped first, then a new array is bound (its id() may be reused)
+#   ["view", vname, base, lo, hi]    a persistent view object base[lo:hi]
+#   ["call", [arg, ...]]             arg = name | ["slice", name, lo, hi] (a view created for this call only)
+# Oracle (no model): every task sees exactly the values its argument has in the caller at dispatch time.
+
+HIST_MAX_NBYTES = 1000
+SIG_F57 = "worker-sees-stale-values:same-array-object-mutated-in-place-between-calls-of-a-managed-Parallel"
+
+
+def hist_mutate(a, how, salt):
+    """In place, whatever the layout (no reshape: it would copy an F-ordered array)."""
+    last = tuple(d - 1 for d in a.shape)
+    if a.dtype.hasobject:
+        if how == "one":
+            a[last] = ("mut", salt)
+        else:
+            for i, idx in enumerate(np.ndindex(a.shape)):
+                a[idx] = ("mut", salt, i)
+        return
+    if how == "one":
+        a[last] = np.frombuffer(bytes((b ^ 0xA5) for b in np.asarray(a[last]).tobytes()), dtype=a.dtype)[0]
+    elif how == "flip" and a.flags.c_contiguous and a.ndim:
+        raw = a.view("u1")
+        raw ^= 0x3C
+    else:
+        g = np.random.default_rng(1000 + salt)
+        a[...] = np.frombuffer(g.bytes(a.size * a.dtype.itemsize), dtype=a.dtype).reshape(a.shape)
+
+
+def history_plan(rnd, thorough):
+    big = dict(dtype="<f8", shape=[300], layout="C")        # 2400 bytes > HIST_MAX_NBYTES
+    big2 = dict(dtype=">i4", shape=[40, 10], layout="F")
+    st = dict(dtype=[["a", "<i4"], ["b", ">f8"]], shape=[120], layout="C")
+    small = dict(dtype="<f8", shape=[20], layout="C")
+    obj = dict(dtype="O", shape=[200], layout="C")
+
+    def sp(d, seed):
+        return dict(d, seed=seed)
+
+    shapes = {
+        "reuse-unchanged": [["new", "a", sp(big, 1)], ["call", ["a", "a"]], ["call", ["a"]], ["call", ["a"]]],
+        "mutate-fill": [["new", "a", sp(big, 2)], ["call", ["a"]], ["mutate", "a", "fill"], ["call", ["a"]]],
+        "mutate-one": [["new", "a", sp(big2, 3)], ["call", ["a"]], ["mutate", "a", "one"], ["call", ["a"]],
+                       ["mutate", "a", "flip"], ["call", ["a", "a"]]],
+        "mutate-before-first-call": [["new", "a", sp(st, 4)], ["mutate", "a", "fill"], ["call", ["a"]]],
+        "equal-copy": [["new", "a", sp(big, 5)], ["call", ["a"]], ["copy", "a"], ["call", ["a"]], ["mutate", "a", "fill"],
+                       ["copy", "a"], ["call", ["a"]]],
+        "replace": [["new", "a", sp(big, 6)], ["call", ["a"]], ["replace", "a", sp(big, 7)], ["call", ["a"]],
+                    ["replace", "a", sp(big, 8)], ["call", ["a"]]],
+        "kept-view-of-a-mutated-base": [["new", "b", sp(big, 9)], ["view", "v", "b", 10, 290], ["call", ["v"]],
+                                        ["mutate", "b", "fill"], ["call", ["v", "b"]]],
+        "fresh-views": [["new", "b", sp(big, 10)], ["call", [["slice", "b", 0, 150], ["slice", "b", 150, 300]]],
+                        ["mutate", "b", "fill"], ["call", [["slice", "b", 0, 150], ["slice", "b", 150, 300]]]],
+        "memmap-input": [["memmap", "m", sp(big, 11)], ["call", ["m"]], ["mutate", "m", "fill"], ["call", ["m", ["slice", "m", 7, 200]]],
+                         ["mutate", "m", "one"], ["call", ["m"]]],
+        "below-threshold": [["new", "s", sp(small, 12)], ["call", ["s"]], ["mutate", "s", "fill"], ["call", ["s"]]],
+        "object-dtype": [["new", "o", sp(obj, 13)], ["call", ["o"]], ["mutate", "o", "one"], ["call", ["o"]]],
+        "two-arrays": [["new", "a", sp(big, 14)], ["new", "c", sp(big, 15)], ["call", ["a", "c"]], ["mutate", "c", "flip"],
+                       ["call", ["c", "a"]]],
+    }
+    plan = []
+    for name, steps in shapes.items():
+        for managed in (True, False):
+            plan.append(dict(kind="history", shape=name, backend="loky", managed=managed, steps=steps))
+    for name in ("mutate-fill", "fresh-views", "replace"):
+        plan.append(dict(kind="history", shape=name, backend="multiprocessing", managed=True, steps=shapes[name]))
+    plan.append(dict(kind="history", shape="mutate-fill", backend="multiprocessing", managed=False, steps=shapes["mutate-fill"]))
+    plan.append(dict(kind="history", shape="mutate-one", backend="threading", managed=True, steps=shapes["mutate-one"]))
+    # random histories
+    for i in range(12 if thorough else 3):
+        names = ["a", "b"]
+        steps = [["new", "a", sp(rnd.choice([big, big2, st]), 100 + i)],
+                 [rnd.choice(["new", "memmap"]), "b", sp(rnd.choice([big, big2]), 200 + i)]]
+        live_views = []
+        for _ in range(rnd.randint(4, 9) if thorough else rnd.randint(3, 5)):
+            op = rnd.choice(["call", "call", "mutate", "mutate", "copy", "replace", "view"])
+            n = rnd.choice(names)
+            if op == "call":
+                args = []
+                for _ in range(rnd.randint(1, 3)):
+                    x = rnd.choice(names + live_views)
+                    args.append(x)
+                steps.append(["call", args])
+            elif op == "mutate":
+                steps.append(["mutate", n, rnd.choice(["fill", "one", "flip"])])
+            elif op == "copy":
+                steps.append(["copy", "a"])
+                live_views = [v for v in live_views if v != "va"]
+            elif op == "replace":
+                steps.append(["replace", "a", sp(big, 300 + len(steps) + 10 * i)])
+                live_views = [v for v in live_views if v != "va"]
+            elif op == "view" and ("v" + n) not in live_views:
+                steps.append(["view", "v" + n, n, 5, 25])
+                live_views.append("v" + n)
+        steps.append(["call", names])
+        plan.append(dict(kind="history", shape="random-%d" % i, backend="loky", managed=bool(i % 3 != 2), steps=steps))
+    return plan
+
+
+def history_case(case, scratch):
+    """One history on one Parallel object."""
+    import weakref
+
+    from joblib import Parallel, delayed
+
+    backend, managed = case["backend"], case["managed"]
+    par = Parallel(n_jobs=2, backend=backend, max_nbytes=HIST_MAX_NBYTES, mmap_mode="r",
+                   temp_folder=os.path.join(scratch, "jl"), timeout=120)
+    ST.evaluations += 1
+    ST.count("history:" + backend + (":managed" if managed else ":unmanaged"))
+    ST.count("history-shape=" + ("random" if case["shape"].startswith("random") else case["shape"]))
+    ST.nontrivial.add(json.dumps([case["shape"], backend, managed, case["steps"]], sort_keys=True))
+    env = {}
+    dispatched = []   # (id, weakref, sha at dispatch, call index) of every argument of every earlier call
+    objnum, shanum, model_in, model_out = {}, {}, [], []   # for the model (`history`): the dumped-and-memmapped arguments
+    ncall = 0
+    salt = 0
+
+    def resolve(arg):
+        if isinstance(arg, str):
+            return env[arg]
+        _, name, lo, hi = arg
+        return env[name][lo:hi]
+
+    def run():
+        nonlocal ncall, salt
+        for step in case["steps"]:
+            op = step[0]
+            if op == "new":
+                env[step[1]] = make_array(step[2], os.path.join(scratch, "src"))
+            elif op == "memmap":
+                src = make_array(step[2], os.path.join(scratch, "src"))
+                fn = os.path.join(scratch, "hist-%s-%d.bin" % (step[1], step[2]["seed"]))
+                m = np.memmap(fn, dtype=src.dtype, mode="w+", shape=src.shape, order="F" if src.flags.f_contiguous and not src.flags.c_contiguous else "C")
+                m[...] = src
+                m.flush()
+                del m
+                env[step[1]] = np.memmap(fn, dtype=src.dtype, mode="r+", shape=src.shape,
+                                         order="F" if src.flags.f_contiguous and not src.flags.c_contiguous else "C")
+            elif op == "mutate":
+                salt += 1
+                hist_mutate(env[step[1]], step[2], salt)
+                if isinstance(env[step[1]], np.memmap):
+                    env[step[1]].flush()
+            elif op == "copy":
+                env[step[1]] = env[step[1]].copy()
+            elif op == "replace":
+                del env[step[1]]
+                env[step[1]] = make_array(step[2], os.path.join(scratch, "src"))
+            elif op == "view":
+                env[step[1]] = env[step[2]][step[3]:step[4]]
+            elif op == "call":
+                args = [resolve(x) for x in step[1]]
+                if len(args) == 1:
+                    args = args * 2
+                wants = [task_seen(x) for x in args]
+                sub = dict(case, call=ncall)
+                try:
+                    outs = par(delayed(task_seen)(x) for x in args)
+                except Exception as e:  # noqa: BLE001
+                    cause = str(e.__cause__)
+                    sig = "parallel-raises:" + type(e).__name__
+                    if "FileNotFoundError" in cause and "joblib_memmapping_folder" in cause and ncall > 0:
+                        # the temporary dump of an argument vanished between the caller's `os.path.exists` and the worker's load
+                        sig += (":temporary-dump-vanished-before-the-worker-loaded-it:repeated-call-of-"
+                                + ("a-managed" if managed else "an-unmanaged") + "-Parallel")
+                    fail(sig, sub, dict(error=repr(e)[:300], cause=cause[-1500:]))
+                    return
+                for x, want, got in zip(args, wants, outs):
+                    if got["sha1"] != want["sha1"] or got["shape"] != want["shape"] or got["dtype"] != want["dtype"]:
+                        sig = "worker-values-differ:in-a-call-history"
+                        same_obj = [d for d in dispatched if d[0] == id(x) and d[1]() is x and d[2] == got["sha1"]]
+                        dead_obj = [d for d in dispatched if d[0] == id(x) and d[1]() is not x and d[2] == got["sha1"]]
+                        other = [d for d in dispatched if d[0] != id(x) and d[2] == got["sha1"]]
+                        where = "managed" if managed else "unmanaged"
+                        if same_obj:
+                            sig = ("worker-sees-stale-values:same-array-object-mutated-in-place-between-calls-of-"
+                                   + ("a-managed" if managed else "an-unmanaged") + "-Parallel")
+                        elif dead_obj:
+                            sig = "worker-sees-stale-values:new-array-object-at-the-address-of-a-dropped-one:" + where
+                        elif other:
+                            sig = "worker-sees-values-of-another-array:" + where
+                        fail(sig, sub, dict(want=want, got=got, argument=arr_desc(x), travelled=got["where"].split(":")[0]))
+                    ST.count("history:travelled-as=" + got["where"].split(":")[0])
+                    if (backend != "threading" and type(x) in (np.ndarray, np.memmap) and backing(x) is None
+                            and not x.dtype.hasobject and x.nbytes > HIST_MAX_NBYTES):
+                        # the model's Dispatch: folder (one per managed Parallel, one per call otherwise), object
+                        # identity (a new number when an id() is taken by a new object), values at dispatch time
+                        key = next((k for k, r in objnum.items() if k[0] == id(x) and r[1]() is x), None)
+                        if key is None:
+                            key = (id(x), len(objnum))
+                            objnum[key] = (len(objnum), weakref.ref(x))
+                        vn = shanum.setdefault(want["sha1"], len(shanum))
+                        model_in.append(f"{0 if managed else ncall}:{objnum[key][0]}:{vn}")
+                        model_out.append(str(shanum.get(got["sha1"], "unknown-values")))
+                for x, want in zip(args, wants):
+                    try:
+                        dispatched.append((id(x), weakref.ref(x), want["sha1"], ncall))
+                    except TypeError:
+                        pass
+                del args
+                ncall += 1
+
+    if managed:
+        with par:
+            run()
+    else:
+        run()
+    if model_in:
+        corr("history", case, "history " + ",".join(model_in), ",".join(model_out))
+
+
+class TrackerGate:
+    """Schedule-forcing device: pickled AFTER the array in the same task (in the caller's feeder thread). Lets loky's
+    resource tracker — stopped since the start of the call, as it may lag on a loaded machine — catch up before the
+    task is sent to a worker."""
+
+    def __init__(self, folder):
+        self.folder = folder
+
+    def __reduce__(self):
+        import signal
+        import time
+
+        from joblib.externals.loky.backend import resource_tracker as rt
+
+        os.kill(rt._resource_tracker._pid, signal.SIGCONT)
+        t0 = time.time()
+        while time.time() - t0 < 10 and os.path.isdir(self.folder) and os.listdir(self.folder):
+            time.sleep(0.01)
+        return (int, ())
+
+
+def task_seen_gated(x, gate=None):
+    return task_seen(x)
+
+
+VANISH_SWITCH = "VERIF_C19_VANISH"
+
+
+def lagging_tracker_case(case, scratch):
+    """History: one Parallel object (managed / unmanaged), the same large array object in every call, one task at a
+    time (pre_dispatch=1); in call number `lag_in_call` the resource tracker is stopped while task 1 runs and released
+    while task 2 is being pickled, after the array. Oracle as for every history: both tasks see the caller's values."""
+    import signal
+    import time
+
+    from joblib import Parallel, delayed
+    from joblib.externals.loky.backend import resource_tracker as rt
+
+    managed = case["managed"]
+    ST.evaluations += 1
+    ST.count("history:lagging-resource-tracker")
+    ST.nontrivial.add(json.dumps(case, sort_keys=True))
+    a = make_array(dict(dtype="<f8", shape=[300], layout="C", seed=77), scratch)
+    want = task_seen(a)
+    par = Parallel(n_jobs=2, backend="loky", max_nbytes=HIST_MAX_NBYTES, pre_dispatch=1, batch_size=1,
+                   temp_folder=os.path.join(scratch, "jl"), timeout=120)
+
+    def run():
+        for ncall in range(case["calls"]):
+            sub = dict(case, call=ncall)
+
+            def gen():
+                if ncall != case["lag_in_call"]:
+                    yield delayed(task_seen_gated)(a)
+                    yield delayed(task_seen_gated)(a)
+                    return
+                os.kill(rt._resource_tracker._pid, signal.SIGSTOP)
+                yield delayed(task_seen_gated)(a)
+                time.sleep(1.0)   # task 1 is done and its worker has dropped the memmap
+                yield delayed(task_seen_gated)(a, TrackerGate(par._backend._workers._temp_folder_manager.resolve_temp_folder_name()))
+
+            try:
+                outs = par(gen())
+            except Exception as e:  # noqa: BLE001
+                cause = str(e.__cause__)
+                sig = "parallel-raises:" + type(e).__name__
+                if "FileNotFoundError" in cause and "joblib_memmapping_folder" in cause and ncall > 0:
+                    sig += (":temporary-dump-vanished-before-the-worker-loaded-it:repeated-call-of-"
+                            + ("a-managed" if managed else "an-unmanaged") + "-Parallel")
+                fail(sig, sub, dict(error=repr(e)[:300], cause=cause[-800:]))
+                return
+            finally:
+                os.kill(rt._resource_tracker._pid, signal.SIGCONT)
+            for got in outs:
+                if got["sha1"] != want["sha1"]:
+                    fail("worker-values-differ:in-a-call-history", sub, dict(want=want, got=got))
+
+    if managed:
+        with par:
+            run()
+    else:
+        run()
+
+
+def history_cases(scratch, rnd, thorough):
+    if os.environ.get(VANISH_SWITCH):
+        for managed in (True, False):
+            for lag in (0, 1, 2):
+                case = dict(kind="history-lagging-tracker", managed=managed, calls=3, lag_in_call=lag)
+                guarded(lagging_tracker_case, case, case, scratch)
+    for case in history_plan(rnd, thorough):
+        guarded(history_case, case, case, scratch)
+
+
+# ----------------------------------------------------------------------------- concurrent loads / dumps in threads
+#
+# Two threads of one process inside joblib.load / joblib.dump at the same time, on DIFFERENT files and arrays. The
+# overlap is forced, not hoped for: thread A runs under a profile hook (sys.setprofile, its own thread only) and is
+# parked right after the k-th return from any read / readinto / write / (de)compress call made anywhere below
+# joblib.load / joblib.dump (the raw file object, the pickle machinery, joblib's and CPython's compressor file
+# objects); while it is parked thread B runs a whole load or dump of the other array; then A resumes. Every k is
+# tried. Oracle: both threads get / write exactly their own array (independent reader for the dumps).
+
+IO_NAMES = {"read", "readinto", "readinto1", "read1", "readline", "peek", "write", "decompress", "compress", "flush",
+            "_read_bytes", "_read_chunk", "frombuffer", "tobytes"}
+THREAD_COMPRESS = [0, ["zlib", 1], ["gzip", 3], ["bz2", 9], ["lzma", 1], ["xz", 3]]
+
+
+def threads_plan(rnd, thorough):
+    a = dict(dtype="<f8", shape=[700], layout="C", seed=901)
+    b = dict(dtype="<f8", shape=[700], layout="C", seed=902)      # same dtype and shape as a: only the bytes tell them apart
+    c = dict(dtype=[["a", "<i4"], ["b", ">f8"]], shape=[31, 5], layout="F", seed=903)
+    plan = []
+    for ci, comp in enumerate(THREAD_COMPRESS):
+        for op_a, op_b in (("load", "load"), ("load", "dump"), ("dump", "load"), ("dump", "dump")):
+            if not thorough and comp != 0 and (op_a, op_b) != (("load", "load") if ci % 2 else ("dump", "dump")):
+                continue
+            plan.append(dict(kind="threads", compress=comp, op_a=op_a, op_b=op_b, a=a, b=b if ci % 2 == 0 else c,
+                             target="path" if ci % 3 == 1 else "bytesio"))
+    return plan
+
+
+def threads_case(case, scratch):
+    import threading
+
+    os.makedirs(scratch, exist_ok=True)
+    comp = tuple(case["compress"]) if isinstance(case["compress"], list) else case["compress"]
+    arr = {"a": make_array(case["a"], scratch), "b": make_array(case["b"], scratch)}
+    blob = {}
+    for n in ("a", "b"):
+        bio = io.BytesIO()
+        joblib.dump(arr[n], bio, compress=comp)
+        blob[n] = bio.getvalue()
+        if case["target"] == "path":
+            with open(os.path.join(scratch, "thr-%s.pkl" % n), "wb") as f:
+                f.write(blob[n])
+    ST.evaluations += 1
+    ST.nontrivial.add(json.dumps(case, sort_keys=True))
+    ST.count("threads:" + case["op_a"] + "-while-" + case["op_b"])
+    ST.count("threads:compress=" + (str(comp[0]) if isinstance(comp, tuple) else str(comp)))
+
+    def do(op, n):
+        if op == "load":
+            if case["target"] == "path":
+                return joblib.load(os.path.join(scratch, "thr-%s.pkl" % n))
+            return joblib.load(io.BytesIO(blob[n]))
+        out = io.BytesIO()
+        joblib.dump(arr[n], out, compress=comp)
+        return out.getvalue()
+
+    def judge(op, n, res, sub):
+        if isinstance(res, Exception):
+            fail("concurrent-" + op + "-raises:" + type(res).__name__, sub, repr(res)[:200])
+            return
+        if op == "dump":
+            try:
+                res = OracleUnpickler(io.BytesIO(decode_stream(res)[1])).load()
+            except Exception as e:  # noqa: BLE001
+                fail("concurrent-dump-writes-an-unreadable-file:" + type(e).__name__, sub, repr(e)[:200])
+                return
+        o = arr[n]
+        if not (isinstance(res, np.ndarray) and tuple(res.shape) == tuple(o.shape) and dtype_equal_up_to_byteorder(res.dtype, o.dtype)):
+            fail("concurrent-" + op + "-returns-another-kind-of-array", sub, dict(got=arr_desc(res) if isinstance(res, np.ndarray) else type(res).__name__))
+        elif not (elem_bytes(res) == elem_bytes(o) if res.dtype == o.dtype else same_values_other_byteorder(res, o)):
+            other = arr["b" if n == "a" else "a"]
+            mixed = res.dtype == other.dtype and res.shape == other.shape and bool((np.asarray(res).view("u1") == np.asarray(other).view("u1")).any())
+            fail("concurrent-" + op + "-in-threads-corrupts-the-array", sub, dict(holds_bytes_of_the_other_threads_array=mixed))
+
+    only = case.get("park_after_io_return")   # a replay: that overlap alone
+    k, total = only or 1, None
+    while total is None or k <= total:
+        parked, resume, a_done = threading.Event(), threading.Event(), threading.Event()
+        count = [0]
+        res = {}
+
+        def prof(frame, event, arg):
+            if event == "c_return":
+                name = getattr(arg, "__name__", "")
+            elif event == "return":
+                name = frame.f_code.co_name
+            else:
+                return
+            if name in IO_NAMES:
+                count[0] += 1
+                if count[0] == k:
+                    parked.set()
+                    resume.wait(120)
+
+        def run_a():
+            sys.setprofile(prof)
+            try:
+                res["a"] = do(case["op_a"], "a")
+            except Exception as e:  # noqa: BLE001
+                res["a"] = e
+            finally:
+                sys.setprofile(None)
+                a_done.set()
+                parked.set()
+
+        def run_b():
+            parked.wait(120)
+            try:
+                res["b"] = do(case["op_b"], "b")
+            except Exception as e:  # noqa: BLE001
+                res["b"] = e
+            finally:
+                resume.set()
+
+        ta, tb = threading.Thread(target=run_a), threading.Thread(target=run_b)
+        ta.start()
+        tb.start()
+        ta.join()
+        tb.join()
+        sub = dict(case, park_after_io_return=k)
+        sub.pop("thread", None)
+        judge(case["op_a"], "a", res.get("a"), dict(sub, thread="A"))
+        judge(case["op_b"], "b", res.get("b"), dict(sub, thread="B"))
+        ST.count("threads:forced-overlaps")
+        if count[0] < k:
+            total = count[0]
+        if only is not None:
+            break
+        k += 1
+    ST.count("threads:io-returns-per-op<=%d" % (10 * (1 + (total or 0) // 10)))
+
+
+def threads_cases(scratch, rnd, thorough):
+    for case in threads_plan(rnd, thorough):
+        guarded(threads_case, case, case, scratch)
 
 
 # ----------------------------------------------------------------------------- plans
@@ -1153,6 +1799,18 @@ def main():
             guarded(worker_view_case, case, case["view"], scratch)
         elif kind == "parallel-view":
             guarded(parallel_view_cases, case, scratch)
+        elif kind == "modes":
+            case.pop("input", None)
+            guarded(mode_case, case, case, scratch)
+        elif kind == "threads":
+            case.pop("thread", None)
+            guarded(threads_case, case, case, scratch)
+        elif kind == "history-lagging-tracker":
+            case.pop("call", None)
+            guarded(lagging_tracker_case, case, case, scratch)
+        elif kind == "history":
+            case.pop("call", None)
+            guarded(history_case, case, case, scratch)
         else:
             guarded(parallel_cases, case, scratch, rnd, thorough)
     elif part.startswith("dump"):
@@ -1172,6 +1830,12 @@ def main():
             rebuilt = list(ex.map(lambda v: run_rebuild(v, scratch), plan))
         for v, r in zip(plan, rebuilt):
             guarded(worker_view_case, dict(kind="worker-view", view=v), v, scratch, r)
+    elif part == "modes":
+        mode_cases(scratch, thorough)
+    elif part == "threads":
+        threads_cases(scratch, rnd, thorough)
+    elif part == "histories":
+        history_cases(scratch, rnd, thorough)
     elif part.startswith("parallel"):
         i, n = (int(x) for x in part[8:].split("of"))
         guarded(parallel_cases, dict(kind="parallel", shard=i), scratch, rnd, thorough, i, n)
